@@ -130,7 +130,9 @@ impl Monitor for C20 {
                     let Some(pool) = pre.data(&wk).and_then(decode::pool) else { continue };
                     // the three supplied arrays, merely-named ones as zeroed facades at their canonical start
                     let starts = canonical_starts(&pool, a.a_to_b);
-                    let keys = [c.a("tick_array_0"), c.a("tick_array_1"), c.a("tick_array_2")];
+                    // (v2: supplemental tick arrays in the remaining accounts are part of what the program sees)
+                    let mut keys = vec![c.a("tick_array_0"), c.a("tick_array_1"), c.a("tick_array_2")];
+                    keys.extend(c.remaining().iter().map(|m| m.pubkey));
                     let mut arrays: Vec<sdk::TickArrayFacade> = Vec::new();
                     let mut complete = true;
                     for s in starts {
